@@ -142,17 +142,26 @@ def run(chk: Check) -> None:
         return "".join(p)
 
     def other_ctx(code: str, payload: str) -> str | None:
+        """the same payload in another context: one character of one of the context fields changed (any field, any
+        position; for 0404 also the zone <-> DHW marker)"""
         p = list(payload)
-        a, b = ctx_slices(code)[-1]
-        if len(p) < b:
+        slices = [(a, b) for a, b in ctx_slices(code) if len(p) >= b]
+        if not slices:
             return None
-        cur = "".join(p[a:b])
-        for _ in range(10):
-            new = cur[:-1] + rnd.choice([c for c in "0123456789AB" if c != cur[-1]])
-            if new != cur:
-                p[b - 1] = new[-1]
-                return "".join(p)
-        return None
+        if code == "0404" and "".join(p[2:4]) == "23":
+            slices = [x for x in slices if x != (0, 4)]  # the DHW schedule: there is one, the index byte is no context
+        if not slices:
+            return None
+        if code == "0404" and len(p) >= 4 and rnd.random() < 0.4:
+            p[2:4] = "23" if "".join(p[2:4]) == "20" else "20"
+            p[0:2] = "00" if rnd.random() < 0.7 else p[0:2]
+            return "".join(p) if "".join(p) != payload else None
+        a, b = slices[-1] if rnd.random() < 0.5 else rnd.choice(slices)
+        i = b - 1 if rnd.random() < 0.6 else rnd.randrange(a, b)
+        if code == "0404" and i in (2, 3):
+            i = 1  # the marker is swapped as a whole (above)
+        p[i] = rnd.choice([c for c in "0123456789AB" if c != p[i]])
+        return "".join(p)
 
     req_pairs = [(c, v, p) for c, v, p in pairs if v in ("RQ", " W")]
     M = 40000 if thorough else 2500
